@@ -28,8 +28,26 @@ def ensure_impl_python():
         env = impl_env()
         env['VERIF_REEXEC'] = '1'
         os.execve(VENV_PY, [VENV_PY] + sys.argv, env)
+    _start_coverage()
     import spydrnet
     assert os.path.realpath(spydrnet.__file__).startswith(REPO + '/'), spydrnet.__file__
+
+
+def _start_coverage():
+    """tools/coverage_run.sh only: measure which lines of the implementation a check's run reaches (VERIF_COVERAGE_DIR);
+    never set by the registered commands"""
+    d = os.environ.get('VERIF_COVERAGE_DIR')
+    if not d:
+        return
+    import atexit, coverage
+    os.makedirs(d, exist_ok=True)
+    cov = coverage.Coverage(data_file=os.path.join(d, 'cov'), data_suffix=True, branch=False, include=[REPO + '/spydrnet/*'])
+    cov.start()
+
+    def _stop():
+        cov.stop()
+        cov.save()
+    atexit.register(_stop)
 
 
 def seed_default():
